@@ -28,10 +28,11 @@ CHECKS["C03"] = dict(
         dict(pkg="pkg/nack", entry="HC03MissingScan", params=dict(maxd=8, size=64),
              thorough=dict(params=dict(maxd=10), flags=["-qtimeout", "600000"], timeout=3000)),
         dict(pkg="pkg/nack", entry="HC03LogHistory", params=dict(adds=3, jump=4, back=134, size=128), flags=["-qtimeout", "600000"], tiers=["thorough"]),
+        dict(pkg="pkg/nack", entry="HC03LogHistory", params=dict(adds=3, jump=4, back=262, size=256), flags=["-qtimeout", "600000"], tiers=["thorough"]),
     ] + [dict(pkg="pkg/nack", entry="HC03Interceptor", params=dict(maxnacks=m, ticks=3), require_covers=["nack sent", "second loss"], no_native=True) for m in (0, 1, 2)],
     bounds=dict(quick="receiveLog size 64; histories from the constructor: 3 adds, forward jumps <=4, backward <=70 (older than window included), any base incl. wrap; state-level oracle (bitmap == reference set on the whole window, cursor = end of gap-free prefix). missingSeqNumbers from an ARBITRARY bitmap/end state with cursor distance <=8, skipLastN 0..5. Interceptor level: generator (size 64) with two NACK-negotiated streams and one not negotiated, a fixed small arrival pattern per stream with one case-split offset and one failing read, 3 ticks fired by the harness with a second loss arriving after the first tick, + one tick after unbinding a stream, per-packet limit 0/1/2: NACK contents per tick and stream == reference missing set, limit honoured, nothing for the non-negotiated or unbound stream.",
-                thorough="4 adds; cursor distance <=10; histories also at window size 128 (3 adds, backward jumps up to 134)"),
-    outside=["window sizes 256..32768 (size 512 histories: solver unknown at 60 s)", "forward jumps >4 in histories (loop length only)", "cursor distance >10 in the scan lemma (solver does not finish the compaction argument beyond that: unknown at 60 s for 16)",
+                thorough="4 adds; cursor distance <=10; histories also at window sizes 128 and 256 (3 adds, backward jumps beyond the window)"),
+    outside=["window sizes 512..32768 (size 512 histories: solver unknown at 60 s)", "forward jumps >4 in histories (loop length only)", "cursor distance >10 in the scan lemma (solver does not finish the compaction argument beyond that: unknown at 60 s for 16)",
              "interceptor level beyond the fixed arrival pattern (arbitrary interleavings of ticks and arrivals)"],
     assumptions=["sync.RWMutex modelled as engine primitive", "decomposition: history harness checks the state, scan harness checks state->output from any state"],
 )
@@ -142,10 +143,12 @@ CHECKS["C02"] = dict(
          for (k, L) in ((3, 16), (5, 16), (6, 16), (7, 16), (8, 16), (3, 20), (5, 20), (8, 20))] + [
         dict(pkg="pkg/gcc", entry="HC02LeakyBucketSize", params=dict(concretenow=1, maxlen=1500), require_covers=["accepted"]),
         dict(pkg="pkg/gcc", entry="HC02LeakyBucketSize", params=dict(concretenow=1, maxlen=4000), require_covers=["accepted"]),
+        dict(pkg="pkg/rtpfb", entry="HC02RawTWCC", flags=["-unwind", "9000"], require_covers=["parsed", "rejected by the parser"]),
+        dict(pkg="internal/cc", entry="HC02RawTWCCAdapter", flags=["-unwind", "9000"], require_covers=["parsed", "rejected by the parser"]),
     ] + [dict(pkg="internal/verifchain", entry="HC02ExtRTP", params=dict(kind=k), flags=["-unwind", "1200"], require_covers=["extension packet handled"]) for k in (3, 6, 7, 8)],
-    bounds=dict(quick="structurally inconsistent but parseable TWCC feedback (status count 0..4, run length 0..12 beyond the count, 7-symbol vector chunks with received padding, exactly the deltas rtcp.Unmarshal would produce) through rtpfb.convertTWCC and the gcc FeedbackAdapter; every index/nil/slice operation is an implicit assertion; a well-formed probe feedback afterwards. Raw RTP: ANY byte string of 16 bytes (20 for the NACK generator and report receiver) (all bytes symbolic except that the sequence-number field is within 8 of the probe packet's) with any reported length n <= that size (stale bytes beyond n symbolic too) through the BindRemoteStream reader of the NACK generator, report receiver, TWCC sender, RFC 8888 sender and packetdump receiver (real rtp.Header.Unmarshal from SSA), then a well-formed packet; a packet shorter than the header its CSRC count announces must be rejected whatever stale bytes follow. Extension block: a 16..22-byte packet with a one-byte- or two-byte-profile extension block whose single word (ids, lengths, data) is symbolic, possibly truncated, through the NACK generator, TWCC sender, RFC 8888 sender and packetdump readers. Outgoing size: ANY payload length 0..1500 / 0..4000 through the gcc LeakyBucketPacer (Write on the caller, release by the pacer goroutine on a harness-fired tick), a second packet afterwards, Close",
+    bounds=dict(quick="structurally inconsistent but parseable TWCC feedback (status count 0..4, run length 0..12 beyond the count, 7-symbol vector chunks with received padding, exactly the deltas rtcp.Unmarshal would produce) through rtpfb.convertTWCC and the gcc FeedbackAdapter; every index/nil/slice operation is an implicit assertion; a well-formed probe feedback afterwards. Raw RTP: ANY byte string of 16 bytes (20 for the NACK generator and report receiver) (all bytes symbolic except that the sequence-number field is within 8 of the probe packet's) with any reported length n <= that size (stale bytes beyond n symbolic too) through the BindRemoteStream reader of the NACK generator, report receiver, TWCC sender, RFC 8888 sender and packetdump receiver (real rtp.Header.Unmarshal from SSA), then a well-formed packet; a packet shorter than the header its CSRC count announces must be rejected whatever stale bytes follow. Extension block: a 16..22-byte packet with a one-byte- or two-byte-profile extension block whose single word (ids, lengths, data) is symbolic, possibly truncated, through the NACK generator, TWCC sender, RFC 8888 sender and packetdump readers. Raw RTCP: ANY 24-byte transport-wide-CC feedback packet (symbolic base, status count 0..8, reference time, one arbitrary 16-bit status chunk of any kind, two arbitrary trailing bytes; for the gcc adapter run lengths <= 16) through the real rtcp.Unmarshal and then rtpfb processFeedback / the gcc adapter. Outgoing size: ANY payload length 0..1500 / 0..4000 through the gcc LeakyBucketPacer (Write on the caller, release by the pacer goroutine on a harness-fired tick), a second packet afterwards, Close",
                 thorough="same"),
-    outside=["raw RTCP byte strings (rtcp.Unmarshal on symbolic buffers)", "RTP buffers longer than 16-20 bytes (28 bytes did not finish in 20 min: CSRC/extension parsing paths)", "outgoing packet sizes above 4000 and through interceptors other than the leaky bucket pacer", "stats, packetdump, jitter buffer, flexfec, pacers, nack responder RTCP reader"],
+    outside=["raw RTCP byte strings other than one-chunk 24-byte TWCC packets (compound packets, NACK/SR/RR/XR/CCFB bytes)", "RTP buffers longer than 16-20 bytes (28 bytes did not finish in 20 min: CSRC/extension parsing paths)", "outgoing packet sizes above 4000 and through interceptors other than the leaky bucket pacer", "stats, packetdump, jitter buffer, flexfec, pacers, nack responder RTCP reader"],
     assumptions=["the unmarshal post-condition P_U used to build the structured feedback (DESIGN.md C02)"],
 )
 
